@@ -2,6 +2,7 @@ import StunVerif.Props.C18
 import StunVerif.Props.C18Codec
 import StunVerif.Props.SrcFnAgent
 import StunVerif.Props.SrcFnPoll
+import StunVerif.Props.SrcFnGlue
 #print axioms StunVerif.C18.send_tx
 #print axioms StunVerif.C18.poll_tx
 #print axioms StunVerif.C18.remembered_fixed
@@ -39,3 +40,15 @@ import StunVerif.Props.SrcFnPoll
 #print axioms StunVerif.SrcFnPoll.foldl_congr_mem
 #print axioms StunVerif.SrcFnPoll.minWait_as_map
 #print axioms StunVerif.SrcFnPoll.src_agentPoll
+#print axioms StunVerif.SrcFnGlue.src_reqNew
+#print axioms StunVerif.SrcFnGlue.src_mtypeClass
+#print axioms StunVerif.SrcFnGlue.accepted
+#print axioms StunVerif.SrcFnGlue.src_msgGetType
+#print axioms StunVerif.SrcFnGlue.src_msgClass
+#print axioms StunVerif.SrcFnGlue.src_msgMethod
+#print axioms StunVerif.SrcFnGlue.src_msgHasClass
+#print axioms StunVerif.SrcFnGlue.src_msgHasMethod
+#print axioms StunVerif.SrcFnGlue.src_msgTransactionId
+#print axioms StunVerif.SrcFnGlue.src_msgRawAttribute
+#print axioms StunVerif.SrcFnGlue.src_msgHasAttribute
+#print axioms StunVerif.SrcFnGlue.src_inMsg
